@@ -120,8 +120,8 @@ func flight1Generate(
 		})
 	}
 
-	if len(cfg.ServerName) > 0 {
-		extensions = append(extensions, &extension.ServerNameOffer{ServerName: cfg.ServerName})
+	if serverName := cfg.ServerNameIndication(); len(serverName) > 0 {
+		extensions = append(extensions, &extension.ServerNameOffer{ServerName: serverName})
 	}
 
 	if len(cfg.LocalSRTPProtectionProfiles) > 0 {
